@@ -154,13 +154,14 @@ theorem runBody_disk_isSome (body : List Prim) {w : World} (h : w.disk.isSome = 
 /-- creating the file under a locking bound sets the mark -/
 theorem create_held {cfg : Cfg} (hl : locking cfg.low = true) (ha : cfg.createAtArg = true) {ow : OWorld}
     (hn : ow.w.handle = none) :
-    (stepO cfg ow (.open .overwrite)).2 = none ∧ Held (stepO cfg ow (.open .overwrite)).1 := by
+    (stepO cfg ow (.open .overwrite)).2 = none ∧ Held (stepO cfg ow (.open .overwrite)).1 ∧
+    WF (stepO cfg ow (.open .overwrite)).1.w := by
   have hdec : ∀ ps, openDecision ps .overwrite = .create .trunc .overwrite := by intro ps; cases ps <;> rfl
   have e : stepO cfg ow (.open .overwrite) =
       (⟨(openFile ow.w .overwrite).1, locking cfg.low, locking cfg.low, false⟩, none) := by
     simp only [stepO, openO, hn, hdec, ha, if_true]
   rw [e, openFile_create _ hn]
-  exact ⟨rfl, ⟨⟨⟨.overwrite, Store.empty⟩, rfl, by simp⟩, rfl, hl, rfl⟩⟩
+  exact ⟨rfl, ⟨⟨⟨.overwrite, Store.empty⟩, rfl, by simp⟩, rfl, hl, rfl⟩, createW_WF (settle_pending ow.w)⟩
 
 /-- writes, write-backs and flushes keep the writer and the mark -/
 theorem session_held {cfg : Cfg} (hk : closes Gen.fileFlushBody = false) {ow : OWorld} (h : Held ow) (e : Ev)
@@ -210,5 +211,76 @@ theorem held_kill_refused {cfg : Cfg} {ow : OWorld} (h : Held ow) (m : Mode) (hm
   | overwrite => exact absurd rfl hm
   | readOnly => simp only [openO, hn', hps, openDecision, hf', if_true]
   | readWrite => simp only [openO, hn', hps, openDecision, hf', if_true]
+
+/-! ### any configuration that creates the file at the named path: the content level is `step` -/
+
+theorem liftO_attached {ow : OWorld} (ha : ow.detached = false) (e : Ev) :
+    (liftO ow e).1.w = (step ow.w e).1 ∧ (liftO ow e).2 = (step ow.w e).2 ∧ (liftO ow e).1.detached = false ∧
+    (liftO ow e).1.flag = (if ow.w.handle.isSome && (step ow.w e).1.handle.isNone then false else ow.flag) := by
+  refine ⟨by simp [liftO, ha], rfl, by simp [liftO, ha], by simp [liftO, ha]⟩
+
+/-- a regular close (a body that flushes first and then closes) under a locking bound: the mark is cleared and
+the file is settled on the state at the close -/
+theorem close_clears {cfg : Cfg} {ow : OWorld} (h : Held ow) (hwf : WF ow.w) (body : List Prim)
+    (hs : syncs body = true) (hc : closes body = true) (e : Ev) (he : step ow.w e = runBody ow.w body)
+    (hne : e = .close ∨ e = .exit) :
+    ∃ hd, ow.w.handle = some hd ∧ Settled hd.cache (stepO cfg ow e).1.w ∧ (stepO cfg ow e).1.w.handle = none ∧
+      (stepO cfg ow e).1.flag = false ∧ (stepO cfg ow e).1.detached = false := by
+  obtain ⟨⟨hd, ho, _⟩, _, _, hatt⟩ := h
+  have hl := liftO_attached hatt e
+  have hstep : stepO cfg ow e = liftO ow e := by rcases hne with rfl | rfl <;> rfl
+  have hclosed : (step ow.w e).1.handle = none := by rw [he]; exact runBody_closes body hc
+  refine ⟨hd, ho, ?_, ?_, ?_, ?_⟩
+  · rw [hstep, hl.1, he]; exact runBody_syncs body ho hwf hs
+  · rw [hstep, hl.1]; exact hclosed
+  · rw [hstep, hl.2.2.2]; simp [ho, hclosed]
+  · rw [hstep]; exact hl.2.2.1
+
+/-- an unmarked, closed, settled file opens without truncation, whatever the configuration -/
+theorem reopen_unmarked {cfg : Cfg} {c : Store} {ow : OWorld} (hset : Settled c ow.w)
+    (hf : ow.flag = false) (m : Mode) (hm : m ≠ .overwrite) :
+    reopenO cfg ow m = (none, some c) := by
+  let ow' : OWorld := { ow with w := (step ow.w .kill).1, detached := false }
+  have hk : Settled c ow'.w := kill_settled hset
+  have hn' : ow'.w.handle = none := rfl
+  have hf' : ow'.flag = false := hf
+  have hd := (settle_settled hk).disk
+  have hps : pathState ow' = .file := pathState_file hd
+  show ((openO cfg ow' m).2, viewO (openO cfg ow' m).1) = (none, some c)
+  cases m with
+  | overwrite => exact absurd rfl hm
+  | readOnly =>
+    have e : openO cfg ow' .readOnly =
+        ({ ow' with w := (openFile ow'.w .readOnly).1, flag := ow'.sb3 && decide (Flags.rdonly = .rdwr) }, none) := by
+      simp only [openO, hn', hps, openDecision, hf']
+      rfl
+    rw [e, openFile_existing .readOnly (by simp) hn' hd]
+    rfl
+  | readWrite =>
+    have e : openO cfg ow' .readWrite =
+        ({ ow' with w := (openFile ow'.w .readWrite).1, flag := ow'.sb3 && decide (Flags.rdwr = .rdwr) }, none) := by
+      simp only [openO, hn', hps, openDecision, hf']
+      rfl
+    rw [e, openFile_existing .readWrite (by simp) hn' hd]
+    rfl
+
+/-- the content level of a held world follows `step` through a session body -/
+theorem run_held_w {cfg : Cfg} (hk : closes Gen.fileFlushBody = false) (es : List Ev) {ow : OWorld} (h : Held ow)
+    (hs : ∀ e ∈ es, sessionEv e = true) : (runO cfg ow es).w = run ow.w es := by
+  induction es generalizing ow with
+  | nil => rfl
+  | cons e es ih =>
+    have he := hs e List.mem_cons_self
+    have h1 : (stepO cfg ow e).1.w = (step ow.w e).1 := by
+      cases e with
+      | write x => exact (liftO_attached h.att _).1
+      | writeback ks => exact (liftO_attached h.att _).1
+      | flush => exact (liftO_attached h.att _).1
+      | «open» m => simp [sessionEv] at he
+      | close => simp [sessionEv] at he
+      | exit => simp [sessionEv] at he
+      | kill => simp [sessionEv] at he
+    have := ih (session_held (cfg := cfg) hk h e he) (fun e' he' => hs e' (List.mem_cons_of_mem _ he'))
+    simpa [runO, run, h1] using this
 
 end Nix.Flush.Lemmas
